@@ -24,54 +24,26 @@ theorem mem_accPairs {b : Branch} {a c : Nat} : (a, c) ∈ accPairs b ↔ Node.a
 
 theorem matchesRule_iff {r : RuleId} {nd : Node} : matchesRule r nd = true ↔ r ∈ matching nd := by
   unfold matching
+  simp only [List.mem_append, List.mem_singleton]
   cases r with
   | closure =>
-    simp only [matchesRule, Bool.false_eq_true, false_iff]
-    intro h
-    simp only [List.mem_append, List.mem_singleton, reduceCtorEq, or_false] at h
-    rcases h with h | h
-    · split at h <;> simp at h
-    · split at h <;> simp at h
+    cases hk : nodeKey nd <;> by_cases ha : isAccess nd = true <;> by_cases hi : isIdentityNode nd = true <;>
+      simp [matchesRule, ha, hi]
   | table k =>
-    simp only [matchesRule, beq_iff_eq]
-    constructor
-    · intro h; simp [h]
-    · intro h
-      simp only [List.mem_append, List.mem_singleton, reduceCtorEq, or_false] at h
-      rcases h with h | h
-      · split at h
-        · next k' hk => simp at h; rw [hk, h]
-        · simp at h
-      · split at h <;> simp at h
+    cases hk : nodeKey nd with
+    | none => by_cases ha : isAccess nd = true <;> by_cases hi : isIdentityNode nd = true <;> simp [matchesRule, hk, ha, hi]
+    | some k' =>
+      by_cases hkk : k' = k
+      · subst hkk
+        by_cases ha : isAccess nd = true <;> by_cases hi : isIdentityNode nd = true <;> simp [matchesRule, hk, ha, hi]
+      · have hkk' : ¬ k = k' := fun h => hkk h.symm
+        by_cases ha : isAccess nd = true <;> by_cases hi : isIdentityNode nd = true <;> simp [matchesRule, hk, ha, hi, hkk, hkk']
   | frame fr =>
-    cases fr with
-    | reflexive => simp [matchesRule]
-    | transitive =>
-      simp only [matchesRule, List.mem_append, List.mem_singleton, reduceCtorEq, or_false]
-      constructor
-      · intro h; right; simp [h]
-      · intro h
-        rcases h with h | h
-        · split at h <;> simp at h
-        · split at h
-          · next hc => exact hc
-          · simp at h
-    | symmetric =>
-      simp only [matchesRule, List.mem_append, List.mem_singleton, reduceCtorEq, or_false]
-      constructor
-      · intro h; right; simp [h]
-      · intro h
-        rcases h with h | h
-        · split at h <;> simp at h
-        · split at h
-          · next hc => exact hc
-          · simp at h
-    | serial =>
-      simp only [matchesRule, Bool.false_eq_true, false_iff, List.mem_append, List.mem_singleton, reduceCtorEq, or_false]
-      intro h
-      rcases h with h | h
-      · split at h <;> simp at h
-      · split at h <;> simp at h
+    cases fr <;> cases hk : nodeKey nd <;> by_cases ha : isAccess nd = true <;> by_cases hi : isIdentityNode nd = true <;>
+      simp [matchesRule, ha, hi]
+  | ident =>
+    cases hk : nodeKey nd <;> by_cases ha : isAccess nd = true <;> by_cases hi : isIdentityNode nd = true <;>
+      simp [matchesRule, ha, hi]
 
 theorem aget_mem_key {κ α} [DecidableEq κ] {m : List (κ × List α)} {k : κ} {x : α} (h : x ∈ aget [] m k) :
     ∃ p ∈ m, p.1 = k := by
